@@ -41,6 +41,10 @@
 
 #define HALF ((int)((RLC_FB_BITS / 2)/(RLC_DIG) + ((RLC_FB_BITS / 2) % RLC_DIG > 0)))
 
+/* Digits of the even-indexed coefficients: for odd m there is one more of them
+ * than of the odd-indexed ones, which HALF counts. */
+#define EVEN ((int)RLC_CEIL((RLC_FB_BITS + 1) / 2, RLC_DIG))
+
 static const dig_t t0[16] = {
 	0, 1, 4, 5, 2, 3, 6, 7, 8, 9, 12, 13, 10, 11, 14, 15
 };
@@ -210,7 +214,7 @@ static void fb_sqrt_low(dig_t *c, const dig_t *a) {
 		fb_muld_low(s, t_o, fb_poly_get_srz(), HALF);
 		fb_addd_low(t, t, s, RLC_FB_DIGS + 1);
 		fb_rdcn_low(c, t);
-		fb_addd_low(c, c, t_e, HALF);
+		fb_addd_low(c, c, t_e, EVEN);
 	} else {
 		dig_t u, carry, *tmpa, *tmpc;
 
@@ -231,7 +235,7 @@ static void fb_sqrt_low(dig_t *c, const dig_t *a) {
 		}
 		fb_zero(c);
 		fb_rdcn_low(c, t);
-		fb_addd_low(c, c, t_e, HALF);
+		fb_addd_low(c, c, t_e, EVEN);
 	}
 }
 
